@@ -406,6 +406,7 @@ type cWorld struct {
 	Files    [2]nt.Nfs_fh3
 	Init     cState
 	Extra    []nt.Nfs_fh3 // further files in the root that the programs only look at (a working set larger than the inode cache)
+	deepDirs [2]nt.Nfs_fh3 // TestC04RenameCycle: D0/x and D1/x
 }
 
 // addExtras creates n more files in the root; a "sweep" operation looks at all of them.
